@@ -8,8 +8,6 @@ package types
 
 // ---- assumed contracts of the keeper interfaces bandtss depends on -------------------------------------
 // bank: a successful transfer moves the bank state by exactly that transfer; a failed one changes nothing
-//@ spec bankM2A(b BankState, mod Str, to Addr, amt sdk.Coins) BankState uninterpreted
-//@ spec bankA2M(b BankState, from Addr, mod Str, amt sdk.Coins) BankState uninterpreted
 //@ func (k BankKeeper) SendCoinsFromModuleToAccount
 //@ trusted
 //@ modifies Bank
